@@ -3,6 +3,7 @@
 original samples (property oracle, on the implementation alone) and must agree with the Lean
 decoder model (flattened trees, table compilation) on the same tokens."""
 from vlib import *
+import json, os
 import planlib as pl
 
 MODULES = ["JxlModel.Props.C03"]
@@ -78,6 +79,21 @@ def run(ctx):
                        "lookup tables incl. redundant decisions and 1022/1023 spans) written by the Lean reference "
                        "encoder and decoded by the real decoder; non-trivial = more than one distinct sample value; "
                        "distinct by plan text")
+    # minimised past failures: codestream + the samples it must decode to; always replayed first
+    cpath = os.path.join(VERIF, "corpus", "c03", "cases.jsonl")
+    if os.path.exists(cpath):
+        cs = [json.loads(l) for l in open(cpath) if l.strip()]
+        outs = run_lines_robust([ctx.harness_bin("img")], [f"decode {c['codestream_hex']}" for c in cs], per_line_timeout=30)
+        for c, o in zip(cs, outs):
+            ctx.case(("corpus", c["codestream_hex"]), nontrivial=True)
+            ctx.count("kind:corpus")
+            o = o or "crash"
+            st, kfs = pl.parse_img_output(o) if o.startswith("ok") else (o, None)
+            got = [[ch[1], ch[2], ch[3]] for ch in kfs[0]] if kfs and isinstance(kfs[0], list) else None
+            if got != c["expect"]:
+                ctx.violation("corpus-witness-fails-again", {"name": c["name"], "answer": o[:200]},
+                              {"codestream_hex": c["codestream_hex"], "expected": c["expect"],
+                               "how": "echo 'decode <hex>' | harness/target/debug/img"}, key="corpus:" + c["name"][:20])
     lines = [pl.plan_line(img, fr) for (_, img, fr) in cases]
     encs = run_lines_robust([MODEL_EXE, "enc"], lines, per_line_timeout=60) if ok else []
     if not ok:
